@@ -9,8 +9,8 @@ EXTENDS GlomTrace
 
 CONSTANTS MaxDepth, SecondDepth, MaxLeaves
 
-Leafs == {N("new", "", <<>>), N("same", "", <<>>), N("smiss", "", <<>>)}
-Bin == {"tup", "pipe", "dict", "coal", "or", "and", "switch"}
+Leafs == {N("new", "", <<>>), N("same", "", <<>>), N("copy", "", <<>>), N("smiss", "", <<>>)}
+Bin == {"tup", "pipe", "dict", "coal", "coalskip", "or", "and", "switch"}
 RECURSIVE Trees(_)
 Trees(d) ==
   IF d = 0 THEN Leafs
